@@ -443,7 +443,8 @@ impl<'a> ListStylist<'a> {
                             };
                             inner += body + follow + ln;
                         }
-                        Item::Linebreak(n) => inner += arena.line().repeat_n(n),
+                        // Blank lines are kept only when the list is broken.
+                        Item::Linebreak(n) => inner += arena.line_().repeat_n(n),
                     }
                 }
                 if !sty.no_indent {
